@@ -325,7 +325,7 @@ func specInScope(stack []scope, n int, s scope) bool {
 //@   flag modular: true
 //
 //@ func (*Parser).evaluateVarDefinition
-//@   ensures[C12] values-only-when-something-follows: calls(evaluateValues) >= 1 ==> arg(evaluateValues, 0, 0).peek().tokenType != lexer.NEWLINE && arg(evaluateValues, 0, 0).peek().tokenType != lexer.EOF
+//@   callsite evaluateValues requires[C12] initial-values-only-when-something-follows: p.peek().tokenType != lexer.NEWLINE && p.peek().tokenType != lexer.EOF
 //@   ensures[C12] declaration-may-end-the-file: calls(evaluateValues) <= 1
 //
 //@ func (*Parser).checkNewVariableNameToken
